@@ -1793,3 +1793,41 @@ CONTROLS['C11'] = [
     B('c11-benign-status-via-local', H + 'resource_class.py',
       "    req.response.status = 201\n", "    created = 201\n    req.response.status = created\n"),
 ]
+
+CONTROLS['C11'] += [
+    M('c11-seed-count-query-loses-user-filter', OU,
+      "        if user_id:\n            count_query = count_query.join(\n                models.User, models.Consumer.user_id == models.User.id)\n"
+      "            count_query = count_query.filter(\n                models.User.external_id == user_id)\n",
+      "", 'R11.5'),
+    M('c11-seed-defaults-shared-by-all-classes', HI2,
+      "    inventories = {}\n    for res_class, raw_inventory in data['inventories'].items():\n        inventory_data = copy.copy(INVENTORY_DEFAULTS)\n        inventory_data.update(raw_inventory)\n        inventories[res_class] = inventory_data\n",
+      "    inventories = {}\n    inventory_data = copy.copy(INVENTORY_DEFAULTS)\n    for res_class, raw_inventory in data['inventories'].items():\n        inventory_data.update(raw_inventory)\n        inventories[res_class] = dict(inventory_data)\n",
+      'R11.7'),
+    M('c11-defaults-table-mutated', HI2,
+      "    inventory_data = copy.copy(INVENTORY_DEFAULTS)\n    inventory_data.update(data)\n\n    return inventory_data\n",
+      "    INVENTORY_DEFAULTS.update(data)\n    inventory_data = copy.copy(INVENTORY_DEFAULTS)\n\n    return inventory_data\n",
+      'R11.7'),
+    B('c11-benign-defaults-dict-call', HI2,
+      "        inventory_data = copy.copy(INVENTORY_DEFAULTS)\n        inventory_data.update(raw_inventory)\n        inventories[res_class] = inventory_data\n",
+      "        merged = dict(INVENTORY_DEFAULTS)\n        merged.update(raw_inventory)\n        inventories[res_class] = merged\n"),
+]
+CONTROLS['C20'] += [
+    M('c20-seed-serialiser-skips-requests', H + 'allocation_candidate.py',
+      "        result = dict(allocations=rp_resources)\n",
+      "        if not rp_resources:\n            continue\n        result = dict(allocations=rp_resources)\n", 'R20.6'),
+    B('c20-benign-hoisted-mappings-flag', H + 'allocation_candidate.py',
+      "        if want_version.matches((1, 34)):\n            result['mappings'] = ar.mappings\n",
+      "        include_mappings = want_version.matches((1, 34))\n        if include_mappings:\n            result['mappings'] = ar.mappings\n"),
+]
+CONTROLS['C02'] += [
+    B('c02-benign-hoisted-mappings-flag', H + 'allocation_candidate.py',
+      "        if want_version.matches((1, 34)):\n            result['mappings'] = ar.mappings\n",
+      "        include_mappings = want_version.matches((1, 34))\n        if include_mappings:\n            result['mappings'] = ar.mappings\n"),
+]
+CONTROLS['C13'] += [
+    M('c13-seed-parser-drops-emptied-groups', 'placement/util.py',
+      "            forbidden_aggs |= forbidden\n    return required_aggs, forbidden_aggs\n",
+      "            forbidden_aggs |= forbidden\n    if forbidden_aggs:\n        required_aggs = [aggs - forbidden_aggs for aggs in required_aggs]\n"
+      "        required_aggs = [aggs for aggs in required_aggs if aggs]\n    return required_aggs, forbidden_aggs\n",
+      'R13.6'),
+]
